@@ -75,6 +75,8 @@ DEFAULT_SPEC = {
     "tiny_exon": 0,        # 1: the first chromosome gets an annotated gene one of whose isoforms has a 1-bp middle exon (with reads)
     "hash_names": 0,       # 1: every third read name starts with '#' (a valid QNAME character)
     "softmask": 0,         # 1: the reference is soft-masked: every second 2-kb window of every chromosome is written in lower case
+    "frag_gene": 0,        # 1: one two-isoform gene gets single-exon reads inside the exon that only its first isoform has; its spliced
+                           #    reads go to the FIRST experiment only (later experiments see that isoform through unspliced reads alone)
     "group_tag": "RG",     # BAM tag that carries the group (C09: --read_group tag:<TAG>)
     "twin_chr": 0,         # 1: extra chromosome that is a copy of the first one (same coordinates and strands, own gene ids and reads);
                            #    2: its unannotated locus (novel_locus) carries splice sites of the other strand
@@ -773,6 +775,21 @@ def generate(spec):
                                   "records": [mk_record(g.chrom, blocks, g.strand, False),
                                               mk_record(other.chrom, ob, other.strand, False, flag_extra=256,
                                                         with_seq=bool(s["secondary_seq"]))]})
+    frag_gid = None
+    if s["frag_gene"]:
+        cands_f = [g for g in allgenes if len(g.isoforms) >= 2 and g.paralog_of is None and g.gid not in para_of
+                   and not getattr(g, "no_extra", False) and not getattr(g, "annotation_only", False) and g is not deep
+                   and g not in long_genes and not g.novel and not getattr(g, "shifted", None)
+                   and len([i for i in g.isoforms[0][1] if i not in g.isoforms[1][1]]) == 1]
+        if cands_f:
+            g = cands_f[0]
+            frag_gid = g.gid
+            only = [i for i in g.isoforms[0][1] if i not in g.isoforms[1][1]][0]
+            ea, eb = g.exons[only]
+            for k in range(4):
+                rid += 1
+                reads.append({"id": "r%04d" % rid, "src": g.isoforms[0][0], "gene": g.gid, "kind": "fragment",
+                              "records": [mk_record(g.chrom, [(ea + 8 + k, eb - 8 - k)], g.strand, False)]})
     if s["ambig_multi"]:
         cands = [g for g in allgenes if len(g.isoforms) >= 2 and g.paralog_of is None and g.gid not in para_of
                  and not getattr(g, "no_extra", False) and not getattr(g, "annotation_only", False) and g is not deep
@@ -865,6 +882,9 @@ def generate(spec):
         else:
             for i in members:
                 files[rb.randrange(nb) if nb > 1 else 0].append(i)
+        if frag_gid is not None and e >= 1:
+            drop = set(i for i in range(len(reads)) if reads[i].get("gene") == frag_gid and reads[i]["kind"] != "fragment")
+            files = [[i for i in fl if i not in drop] for fl in files]
         if s.get("novel_one_file") and nb > 1:
             for fi in range(1, nb):
                 moved = [i for i in files[fi] if str(reads[i]["src"]).startswith("novel:")]
